@@ -9,7 +9,7 @@ BLOCK = 'futures::executor::block_on'
 TOKIO = 'tokio::runtime::Builder::new_current_thread().enable_all().build().unwrap().block_on'
 
 # (name, type, expression using nested macros, the same value in plain Rust)
-PROGS = [
+BASE_PROGS = [
     ('join-in-operand', '(i64, i64)',
      'join! { Some(1_i64) |> |x| join! { Some(x) |> |y| y + 1, Some(10_i64) }.0.unwrap() ~|> |x| x * 2, Some(5_i64) ~|> |x| x + 1 }.pipe(|(a, b)| (a.unwrap(), b.unwrap()))',
      '(4, 6)'),
@@ -49,7 +49,37 @@ PROGS = [
 ]
 
 
-def run(tier):
+def eighteen():
+    """18 branches, branch 1 with 20 block operands in one step, branch 17 with 4: two-digit branch AND position indices"""
+    lens = {1: 20, 17: 4, 11: 2, 16: 3}
+    brs, want = [], []
+    for b in range(18):
+        n = lens.get(b, 1)
+        ks = [b * 100 + e for e in range(n)]
+        brs.append('Some(%d_i64) ' % b + ' '.join('|> { let k = %d_i64; move |x: i64| x + k }' % k for k in ks))
+        want.append(b + sum(ks))
+    args = ', '.join('a%d: Option<i64>' % i for i in range(18))
+    expr = 'join! { ' + ', '.join(brs) + ', then => |' + args + '| vec![' + ', '.join('a%d.unwrap()' % i for i in range(18)) + '] }'
+    return ('eighteen-branches-two-digit-positions', 'Vec<i64>', expr, 'vec![' + ', '.join(str(w) for w in want) + ']')
+
+
+# C16: transpose_results(false) with a joiner that returns the already transposed Result, several steps (later steps continue from the payloads)
+OPTS_PROGS = [
+    ('transpose-off-two-steps', 'Result<(i64, i64), i64>',
+     '{ fn tj2<A, B, E>(a: Result<A, E>, b: Result<B, E>) -> Result<(A, B), E> { Ok((a?, b?)) } try_join! { transpose_results(false) custom_joiner(tj2) Ok::<i64, i64>(1) |> |x| x + 1 ~-> |x: i64| Ok::<i64, i64>(x * 10), Ok::<i64, i64>(2) ~-> |x: i64| Ok::<i64, i64>(x + 5) } }',
+     'Ok((20, 7))'),
+    ('transpose-off-failure-stops', '(Result<(i64, i64), i64>, i64)',
+     '{ fn tj2<A, B, E>(a: Result<A, E>, b: Result<B, E>) -> Result<(A, B), E> { Ok((a?, b?)) } let n = std::cell::Cell::new(0_i64); let r = try_join! { transpose_results(false) custom_joiner(tj2) Ok::<i64, i64>(1) => |_| Err::<i64, i64>(9) ~-> |x: i64| { n.set(n.get() + 1); Ok::<i64, i64>(x) }, Ok::<i64, i64>(2) ~-> |x: i64| { n.set(n.get() + 1); Ok::<i64, i64>(x) } }; (r, n.get()) }',
+     '(Err(9), 0)'),
+    ('joiner-call-count', '((Option<i64>, Option<i64>, Option<i64>), Vec<usize>)',
+     '{ let calls = std::cell::RefCell::new(Vec::new()); macro_rules! cj { ($($e:expr),*) => {{ let t = ($($e),*); calls.borrow_mut().push([$(stringify!($e)),*].len()); t }} } let r = join! { custom_joiner(cj!) Some(1_i64) ~|> |x| x + 1 ~|> |x| x + 1, Some(2_i64), Some(3_i64) ~|> |x| x * 2 }; let c = calls.borrow().clone(); (r, c) }',
+     '((Some(3), Some(2), Some(6)), vec![3, 2])'),
+]
+
+
+def run(tier, which='nest'):
+    global PROGS
+    PROGS = (list(BASE_PROGS) + [eighteen()]) if which == 'nest' else list(OPTS_PROGS)
     os.makedirs(os.path.join(RT, 'src', 'bin'), exist_ok=True)
     shutil.copyfile(os.path.join(jv.REPO, 'Cargo.lock'), os.path.join(RT, 'Cargo.lock'))
     live = list(PROGS)
